@@ -860,6 +860,43 @@ def r09k(ctx):
         raise AnalysisError(f"R09k: only {n} strip/protect argument(s) found")
 
 
+def r09l(ctx):
+    """An element built around a piece of text holds that piece, unchanged.
+
+    The regex- and offset-driven wrappers (set_link, set_span …) cut the text node into before / match / after and put the match into a new
+    element built by the class's constructor: `Link(url, text=match)`.  The characters of the match leave the paragraph's own text at that
+    moment; if the constructor tidies what it is given (strip, collapse, lower) they do not come back — a match that begins or ends with a
+    blank loses it, and the text of the paragraph changes although only markup was asked for.  Rule: in the constructor of every registered
+    element class, a store `self.text = …` / `self.tail = …` whose value comes from a parameter applies no lossy string call to it
+    (`_unformatted`, the documented white-space collapse of formatted=False, aside).
+    """
+    from .c14 import LOSSY, LOSSY_FUNCS
+    repo = ctx.repo
+    ctx.rule("R09l", "constructors store the text they are given without tidying it (the regex wrappers hand them the matched characters)", floor=8)
+    n = 0
+    for c in repo.all_classes():
+        for f in c.methods.get("__init__", []):
+            if f.cls is not c:
+                continue
+            params = {a.arg for a in f.all_params()} - {"self"}
+            for a in walk_no_nested(f.node):
+                if not (isinstance(a, ast.Assign) and len(a.targets) == 1 and isinstance(a.targets[0], ast.Attribute) and a.targets[0].attr in ("text", "tail")
+                        and isinstance(a.targets[0].value, ast.Name) and a.targets[0].value.id == "self"):
+                    continue
+                n += 1
+                v = a.value
+                uses_param = any(isinstance(x, ast.Name) and x.id in params for x in ast.walk(v))
+                lossy = [x for x in ast.walk(v) if isinstance(x, ast.Call) and ((isinstance(x.func, ast.Attribute) and x.func.attr in LOSSY) or call_name(x) in LOSSY_FUNCS)]
+                ok = not (uses_param and lossy)
+                ctx.instance("R09l", f"{f.file}:{f.ident}", f"{norm(a, 40)}: stored as given", ok=ok, nontrivial=uses_param, line=a.lineno)
+                if not ok:
+                    ctx.report("R09l", f, a, norm(a, 50),
+                               f"{c.name}() tidies the text it is given (`{norm(lossy[0], 30)}`) before storing it: the wrappers that build a {c.name} around a regex match or an offset hand it "
+                               f"characters taken out of the paragraph — what the constructor drops (a blank at the edge of the match) is gone from the paragraph's text")
+    if n < 8:
+        raise AnalysisError(f"R09l: only {n} text store(s) found in constructors")
+
+
 def run(ctx):
     r09a(ctx)
     r09b(ctx)
@@ -872,6 +909,7 @@ def run(ctx):
     r09i(ctx)
     r09j(ctx)
     r09k(ctx)
+    r09l(ctx)
     # strip_tags and the span builders re-attach every text piece through Element.append: a substitution there that touches more than U+0020 rewrites text
     # that lies outside the markup being inserted or removed (part of a rule shared with C16)
     from .c16 import r16i
@@ -884,6 +922,7 @@ from ..selftest import Seed, unparse_seed  # noqa: E402
 _P = "src/odfdo/paragraph.py"
 _EL = "src/odfdo/element.py"
 SEEDS = [
+    Seed("Link() trims its label", "fault", "src/odfdo/link.py", "            self.text = text\n", "            self.text = text.strip()\n", "R09l"),
     Seed("remove_spans hands the bare tag name to strip_tags", "fault", _P,
          "        strip = (Span._tag,)\n        if keep_heading:", "        strip = Span._tag\n        if keep_heading:", "R09k"),
     Seed("remove_links builds its one-name tuple in the call", "neutral", _P,
